@@ -87,7 +87,7 @@ class paren_loop:
         self.tc = tc
         gen = []
         for p in allp:
-            for t in loops.trips(p, tc["path"], 0):
+            for t in loops.all_trips(p):
                 if t.general and t.post is not None:
                     gen.append(t)
         # the counter: a loop-carried local that some general trip changes by a constant
@@ -96,14 +96,14 @@ class paren_loop:
             for L, v in t.post.items():
                 pre = t.pre.get(L)
                 if pre is not None and isinstance(v, App) and v.fn == "binop:Add" and len(v.args) == 2 and v.args[0].key() == pre.key() and rel.const_int(v.args[1]) is not None:
-                    cand.setdefault((t.header, L), set()).add(rel.const_int(v.args[1]))
+                    cand.setdefault(((t.body_path, t.header), L), set()).add(rel.const_int(v.args[1]))
         cand = {k: v for k, v in cand.items() if v == {1, -1} or v == {1} or v == {-1}}
         if len(cand) != 1:
             return None
         (self.H, self.C), _ = next(iter(cand.items()))
         seen = {"Open": 0, "Close": 0, "other": 0}
         for t in gen:
-            if t.header != self.H:
+            if (t.body_path, t.header) != self.H:
                 continue
             pre, post = t.pre[self.C], t.post.get(self.C)
             tags = [(rel.cstr(d[1].args[0]), d[2]) for d in t.decisions if isinstance(d[1], App) and d[1].fn == "discr"]
@@ -144,7 +144,7 @@ class paren_loop:
         # start value and source
         self.start_ok = True
         for p in allp:
-            ts = [t for t in loops.trips(p, tc["path"], 0) if t.header == self.H]
+            ts = [t for t in loops.all_trips(p) if (t.body_path, t.header) == self.H]
             if not ts:
                 continue
             first = ts[0]
@@ -156,16 +156,16 @@ class paren_loop:
     def verdict(self, p):
         """(scan ok, final ok) for one Ok path"""
         scan = not self.problems
-        st = loops.exit_state(p, self.tc["path"], self.H, 0)
+        st = loops.exit_state(p, self.H[0], self.H[1], None)
         if st is None:
             return False, False     # Ok without ever reaching the scan
         c = st.get(self.C)
         # the loop is left through its own exit condition (iterator exhausted), not from inside a trip
-        idx = [i for i, (k, x) in enumerate(p.trace) if k == "e" and x[0] == "loophead" and x[1] == self.H and x[2] == self.tc["path"] and x[3] == 0]
+        idx = [i for i, (k, x) in enumerate(p.trace) if k == "e" and x[0] == "loophead" and x[1] == self.H[1] and x[2] == self.H[0]]
         after = [x for k, x in p.trace[idx[-1] + 1:] if k == "d"]
         exhausted = bool(after) and isinstance(after[0][1], App) and after[0][1].fn == "discr" and "Iterator::next(" in show(after[0][1]) and after[0][2] == "None"
         # every token is visited in order
-        ts = [t for t in loops.trips(p, self.tc["path"], 0) if t.header == self.H]
+        ts = [t for t in loops.all_trips(p) if (t.body_path, t.header) == self.H]
         itl = [L for L, v in ts[0].pre.items() if "Iterator::enumerate(" in show(v) or "<impl [T]>::iter(toks)" in show(v)]
         src_ok = any(loops.seq_parts(ts[0].pre[L], p) == [("src", "toks", "fwd")] for L in itl)
         if rel.const_int(c) is not None:
@@ -192,7 +192,13 @@ def run(ctx):
     tc = cands[0]
 
     class _Widen(_NoInline):
+        """private helpers of the parser module are inlined: the checks may live in functions of their own"""
         loop_mode = "widen"
+        max_depth = 4
+
+        def inline(self, fn, args, interp, path):
+            return fn.get("path", "").startswith("parser::") and fn.get("name") not in (
+                "tokenize_and_analyze", "make_pair_pre_conditions", "find_op_of_comma", "is_operator_binary", "check_parsed_token_preconditions")
     allp = Interp(fb, _Widen()).run(tc, [Sym("toks")])
     ps = [p for p in allp if p.status != "loop-pruned"]
     loop_form = paren_loop(fb, tc, allp)
